@@ -109,7 +109,7 @@ def url_cases(C08, r, urls, quick):
                 for enc in (ENCS if (el, an) == ("a", "href") or not quick else [r.choice(ENCS)]):
                     in_table = (el, an) in urls
                     changed = in_table and esc == 1 and any(u < 33 and u != 32 or u > 126 or u == 34 for u in v)
-                    # the oracle knows HTML 4.01's URI attributes; a/@name (not one of them) is the stored finding
+                    # the oracle knows HTML 4.01's URI attributes
                     # (the oracle compares an escaped value by unquoting it: a value that already holds a '%' is outside that comparison)
                     orc = vn not in ("ctl", "del") and (not changed or ((el, an) in C08.HTML4_URI and 37 not in v))
                     cs.append(("urlattr:" + vn, enc, esc, 1, "-", "-", [("el", el, [(an, v)], [])], orc))
@@ -163,7 +163,7 @@ def gen_tree(C08, r, enc, bools, urls, with_pi):
                     orc[0] = False
                 at.append((r.choice([an, an.upper()]), v))
         for (el, an) in urls:
-            if el == low and r.random() < 0.5 and (el, an) != ("a", "name"):
+            if el == low and r.random() < 0.5:
                 v = u16("http://h/") + rstr(r, r.choice([1, 3, 6]), r.choice([["plain"], ["plain", "latin1"], ["bmp", "astral"], ["markup", "plain", "astral"]]))
                 if (el, an) not in C08.HTML4_URI or 37 in v:
                     orc[0] = False
@@ -337,7 +337,11 @@ def pi_verdict(evs, txt):
     return None
 
 
+CORPUS_EXPECT = {"k_aname_1.txt": 'name="caf&eacute; 1"', "k_pi_1.txt": "<?t a&b<c>"}
+
+
 def run_corpus(ctx, C08, impl, known):
+    """stored replays (former findings K-C08h-1 / K-C08h-2, repaired in /repo): regression seeds; a failure is an oracle failure"""
     cdir = os.path.join(core.VERIF, "corpus", "C08h")
     hits, fails = {}, []
     if not os.path.isdir(cdir):
@@ -355,14 +359,12 @@ def run_corpus(ctx, C08, impl, known):
             evs = S4.parse_script(t[8:])
             txt = bytes.fromhex(r_[3:]).decode(PY.get(t[2], "utf-8"), "replace") if r_ and r_.startswith("ok:") else None
             what = "html serialization failed" if txt is None else (pi_verdict(evs, txt) if fn.startswith("k_pi") else C08.h_verdict(evs, txt, int(t[3]), int(t[4]), int(t[5])))
-            key = {"k_aname": "K-C08h-1", "k_pi": "K-C08h-2"}.get(fn.split(".")[0].rsplit("_", 1)[0] if fn.count("_") > 1 else fn.split(".")[0])
+            if what is None and fn in CORPUS_EXPECT and CORPUS_EXPECT[fn] not in txt:
+                what = "%s is not in the output %r" % (CORPUS_EXPECT[fn], txt[:200])
             ctx.cov["evaluations"] += 1
             ctx.count("html:corpus:" + fn)
             if what:
-                if key in known:
-                    hits[key] = hits.get(key, 0) + 1
-                else:
-                    fails.append({"case": l, "what": what + "  (stored replay corpus/C08h/%s)" % fn})
+                fails.append({"case": l, "what": what + "  (stored replay corpus/C08h/%s)" % fn})
     return hits, fails
 
 
